@@ -110,6 +110,7 @@ fn main() {
         "std" => stdrc::run_main(&args),
         "ring" => cactus::ring_main(&args),
         "tree" => cactus::tree_main(&args),
+        "fan" => cactus::fan_main(&args),
         "glue" => {
             // the delegating API surface on cactusref and on std::rc, side by side
             let a = cactus::glue();
